@@ -10,8 +10,8 @@
 //	              op   add:<mb> | rm:<mb>:<k> | purge:<mb> | seen:<mb>:<k>
 //	   cancelAt n: the context is cancelled during the n-th callback; "-": never
 //	 => <order of callbacks> <ok|ERR> <callbacks> E=<effective schedule> D=<survivors> R=<removed by the scanner>
-//	start <store> <period_s> <cancel_ms> <boxes>
-//	 => returned|TIMEOUT D=<survivors>
+//	start <store> <period_s> <cancel_ms> <boxes>      cancel_ms < 0: never cancelled; >= 60000: Start's first scan
+//	 => returned|TIMEOUT D=<survivors>                  (one minute after Start) has run before the cancellation
 //
 // The real RetentionScanner runs on the real memory / file store; the store handed to it is
 // wrapped only to observe and to force the interleaving (storage.Store is an interface).
@@ -322,7 +322,7 @@ func runStart(in []string) []string {
 	res := "returned"
 	select {
 	case <-joined:
-	case <-time.After(5 * time.Second):
+	case <-time.After(time.Duration(max(cancelMs, 0))*time.Millisecond + 5*time.Second):
 		res = "TIMEOUT"
 	}
 	return []string{res, d.dump()}
